@@ -38,6 +38,9 @@ type c17Case struct {
 	Only   []c17Call `json:"only,omitempty"`
 	Crash  *c02Case  `json:"crash,omitempty"`
 	FaultK int       `json:"fault_k,omitempty"` // 1-based index of the client (WAL) system call that fails
+	// NoFault: the session is run like an I/O-error session (every Get compared with the reference of acknowledged calls,
+	// recovery of the final image) but nothing is injected: the calls fail by themselves (sync WAL over direct I/O)
+	NoFault bool `json:"no_fault,omitempty"`
 }
 
 func c17Keys() [][]byte {
@@ -134,8 +137,24 @@ func c17CrashHalf(ctx *core.Ctx) error {
 			}
 		}
 	}
+	// errors without any fault: the synchronous WAL over direct I/O refuses every append (documented: direct I/O needs
+	// block-aligned flushes, which a per-record sync cannot give). Every Put/Delete returns an error and must leave nothing
+	// behind - in process, at every crash point, after a clean restart.
+	ndirect := 0
+	for _, mem := range []uint64{90, 1 << 30} {
+		cfg := sess.Cfg{Mem: mem, Thresh: 10, Ratio: 0.2, RBuf: 4096, WBuf: 16, Direct: true}
+		c2 := cfg
+		plain := sess.Cfg{Mem: mem, Thresh: 10, Ratio: 0.2, RBuf: 4096, WBuf: 16}
+		ops := []sess.Op{{Op: "put", K: "a", V: "x"}, {Op: "get", K: "a"}, {Op: "put", K: "b", V: "I80"}, {Op: "del", K: "a"}, {Op: "get", K: "a"}, {Op: "get", K: "b"}, {Op: "close"},
+			{Op: "open", Cfg: &c2}, {Op: "get", K: "a"}, {Op: "get", K: "b"}, {Op: "put", K: "c", V: "y"}, {Op: "get", K: "c"}, {Op: "close"},
+			{Op: "open", Cfg: &plain}, {Op: "get", K: "a"}, {Op: "get", K: "b"}, {Op: "get", K: "c"}, {Op: "put", K: "c", V: "x"}, {Op: "get", K: "c"}, {Op: "close"}}
+		cases = append(cases, core.J(c17Case{Crash: &c02Case{Name: "c17-direct-sync-wal", Mode: "sync", Sess: mkDBSession(cfg, ops...)}, NoFault: true}))
+		cases = append(cases, core.J(c17Case{Crash: &c02Case{Name: "c17-direct-sync-wal", Mode: "sync", Sess: mkDBSession(cfg, ops...)}}))
+		ndirect += 2
+	}
+	ctx.Ev.Bounds["direct_io_sync_wal_sessions"] = ndirect
 	ctx.Ev.Bounds["io_error_sessions"] = nio
-	ctx.Ev.Bounds["crash_sessions"] = len(cases) - nio
+	ctx.Ev.Bounds["crash_sessions"] = len(cases) - nio - ndirect
 	ctx.Ev.Notes = append(ctx.Ev.Notes, "crash observation: 6 rejected calls (nil/empty key or value through either flavour) x {alone, after an accepted put, between two accepted puts} x memstore {90 B, 1 GiB}, run in a traced child; every directory image at a system-call boundary is recovered by a fresh process and must read as the reference without the rejected call")
 	rs := ctx.Pmap(cases)
 	ctx.Fold(rs, cases)
@@ -162,7 +181,7 @@ func c17ProgStr(p []c17Call) string {
 func (c c17) Case(w *core.WCtx, payload json.RawMessage) core.Result {
 	var cs c17Case
 	json.Unmarshal(payload, &cs)
-	if cs.Crash != nil && cs.FaultK > 0 {
+	if cs.Crash != nil && (cs.FaultK > 0 || cs.NoFault) {
 		return c.ioErrorCase(w, cs)
 	}
 	if cs.Crash != nil {
@@ -422,12 +441,16 @@ func (c c17) ioErrorCase(w *core.WCtx, cs c17Case) core.Result {
 	mustMkdir(dbdir)
 	s := cs.Crash.Sess
 	sp := writeSession(dir, s)
-	tr := ktrace.Run(ktrace.Options{Dir: dbdir, Argv: []string{binPath("vchild"), "run", dbdir, sp},
-		Fault: &ktrace.Fault{Classes: []string{"client"}, K: cs.FaultK - 1, Errno: 5, AfterMarker: "OPENED",
+	opts := ktrace.Options{Dir: dbdir, Argv: []string{binPath("vchild"), "run", dbdir, sp}, HangAfter: 10 * time.Second}
+	name := fmt.Sprintf("session [%s] (calls fail by themselves: synchronous WAL over direct I/O)", sessStr(s))
+	if !cs.NoFault {
+		opts.Fault = &ktrace.Fault{Classes: []string{"client"}, K: cs.FaultK - 1, Errno: 5, AfterMarker: "OPENED",
 			// only the append of a mutation itself: a record write to an existing WAL file (not the 8-byte header of a new one).
 			// Failures of the WAL rotation that a Put triggers after it was applied are a different matter, see DESIGN.md 1.2
-			Filter: func(e ktrace.Event) bool { return e.Nr == "write" && e.Bytes != 8 }}, HangAfter: 10 * time.Second})
-	name := fmt.Sprintf("session [%s] with the client's WAL record write #%d after Open failing (EIO)", sessStr(s), cs.FaultK)
+			Filter: func(e ktrace.Event) bool { return e.Nr == "write" && e.Bytes != 8 }}
+		name = fmt.Sprintf("session [%s] with the client's WAL record write #%d after Open failing (EIO)", sessStr(s), cs.FaultK)
+	}
+	tr := ktrace.Run(opts)
 	viol := func(f string, a ...any) {
 		if len(r.Viol) < 4 {
 			r.Viol = append(r.Viol, core.Violation{Desc: name + ": " + fmt.Sprintf(f, a...), Case: core.J(cs)})
@@ -443,9 +466,12 @@ func (c c17) ioErrorCase(w *core.WCtx, cs c17Case) core.Result {
 			failed = &tr.Events[i]
 		}
 	}
-	if failed == nil {
+	if failed == nil && !cs.NoFault {
 		r.Outcome = "fault position beyond the last client call"
 		return r
+	}
+	if failed == nil {
+		failed = &ktrace.Event{Nr: "-", Path: "-"}
 	}
 	r.Traces++
 	r.Trans = int64(len(tr.Events))
